@@ -330,13 +330,17 @@ def check_sequential(acc, ci):
     acc.sample({'rule': 'one rule object of each kind applied to a sequence of 8 states in 3 orders', 'chain': ci})
 
 
-def check_limit_sim(acc, ci, lf, load_frac):
+def check_limit_sim(acc, ci, lf, load_frac, locking=False):
     spec = spec_of(ci)
+    if locking:
+        # a self-locking worm chain started against the load: it is clamped while the rule is in force
+        spec = menu.assign([('J', 'Wg'), ('W', 'Ww')], motor=menu.MOTOR_CUR, locking=True,
+                           init={'theta': [0.0, 'rad'], 'w': [-1.5, 'rad/s'] if lf > 0.5 else [0.0, 'rad/s']})
     chain = sim.chain_ref(spec)
     st = menu.stall_at_output(spec)
     spec['load'] = ['const', load_frac * st]
     ilim = lf * chain.imax
-    case = {'kind': 'limsim', 'chain': ci, 'lim_frac': lf, 'load_frac': load_frac}
+    case = {'kind': 'limsim', 'chain': ci, 'lim_frac': lf, 'load_frac': load_frac, 'locking': locking}
     m = sim.Model(spec)
     motor = m.elements[0]
     log = []
@@ -365,7 +369,7 @@ def check_limit_sim(acc, ci, lf, load_frac):
         hits += 1
         acc.state(('limsim', ci, lf, load_frac, k, D))
         if not si.close(cur[k], ilim, 1e-9, chain.imax):
-            acc.violation('C15/StartLimitCurrent/sim-current', 'while StartLimitCurrent is in force and not clipped the recorded current equals the limit', case,
+            acc.violation('C15/StartLimitCurrent/sim-current' + ('/self-locking-chain' if locking else ''), 'while StartLimitCurrent is in force and not clipped the recorded current equals the limit', case,
                           {'instant': k, 'current': cur[k], 'limit': ilim, 'D': D})
             break
     acc.outcomes[('limsim', 'in-force' if hits else 'never')] += 1
@@ -388,6 +392,8 @@ def run_shard(shard, tier):
         for lf in (0.3, 0.6, 0.9):
             for load in (0.05, 0.3, 0.6):
                 check_limit_sim(acc, ci, lf, load)
+            for load in (0.6, 3.0, 12.0):
+                check_limit_sim(acc, ci, lf, load, locking=True)
         acc.sample({'simulation': 'StartLimitCurrent, tachometer on motor', 'limit/imax': 0.6, 'load/stall': 0.3, 'instants': 40})
     acc.executions += acc.nstates
     acc.cases += acc.nstates
@@ -401,7 +407,7 @@ def replay(case):
         check_sequential(acc, case['chain'])
         return acc.violations
     if k == 'limsim':
-        check_limit_sim(acc, case['chain'], case['lim_frac'], case['load_frac'])
+        check_limit_sim(acc, case['chain'], case['lim_frac'], case['load_frac'], locking=case.get('locking', False))
         return acc.violations
     if k in ('constant', 'reach', 'prop', 'limit'):
         sub = Acc()
